@@ -80,3 +80,6 @@ for _p in ("C02", "C06", "C12", "C14", "C15"):
 
 SUITES["twin"] = dict(mc="MC_Seq")
 PLAN["C13"] = dict(quick=["cold13", "twin"], thorough=["cold13", "twin"])
+
+PLAN["C19"]["quick"] = PLAN["C19"]["quick"] + ["conc"]
+PLAN["C19"]["thorough"] = PLAN["C19"]["thorough"] + ["conc"]
